@@ -712,6 +712,11 @@ func (d *docState) contentFor(lines []Line, r *sim.Rand) []byte {
 		} else if sp.TextOps >= 2 {
 			mode = r.Intn(4)
 		}
+		marked := sp.TextOps >= 2 && r.Pct(40)
+		if marked {
+			// marked content with an inline property list (a dictionary operand)
+			fmt.Fprintf(&b, "/Span << /MCID %d /Lang (en) >> BDC%s", i, nl)
+		}
 		if !opened {
 			b.WriteString("BT" + nl)
 			opened = true
@@ -752,7 +757,9 @@ func (d *docState) contentFor(lines []Line, r *sim.Rand) []byte {
 		}
 		b.WriteString("ET" + nl)
 		opened = false
-		_ = i
+		if marked {
+			b.WriteString("EMC" + nl)
+		}
 	}
 	if wrapQ {
 		b.WriteString("Q" + nl)
